@@ -73,7 +73,11 @@ class Frame(object):
                 self._type = "err"
             elif frame[3:5] == bytearray(b"\xff\xff") and len(frame) >= 10:
                 length = struct.unpack("<H", bytes(frame[5:7]))[0]
-                if len(frame) >= 10 + length:
+                if ((len(frame) >= 10 + length
+                     and sum(frame[5:8]) & 0xFF == 0
+                     and sum(frame[8:9+length]) & 0xFF == 0
+                     and frame[9+length] == 0)):
+                    # length and data checksum and postamble are valid
                     self._type = "data"
                     self._data = frame[8:8+length]
         else:
